@@ -7,11 +7,11 @@ from tools import pull, vlib
 
 
 class C11(vlib.Spec):
-    model_vo = ["theories/Pull/Corr.vo", "theories/Pull/CorrX.vo"]
+    model_vo = ["theories/Pull/Corr.vo", "theories/Pull/CorrX.vo", "theories/Pull/CorrP.vo"]
     props_vo = "theories/Props/C11.vo"
     theorems = ['C11_map', 'C11_inspect', 'C11_filter', 'C11_filter_map', 'C11_flat_map', 'C11_flatten', 'C11_take_while', 'C11_skip_while', 'C11_take', 'C11_skip', 'C11_enumerate', 'C11_fuse', 'C11_chain', 'C11_zip', 'C11_zip_longest', 'C11_cross_singleton', 'C11_run_deterministic', 'C11_run_fuel_iff', 'C11_source_truthful', 'C11_compose', 'C11_beh_replays', 'C11_compose_fused', 'C11_checker_sound', 'C11_checker_complete']
     crate, group, binary = "h_pull", "light", "h_pull"
-    imports = "From HV Require Import Pull.Corr Pull.CorrX."
+    imports = "From HV Require Import Pull.Corr Pull.CorrX Pull.CorrP."
     trusted_base = ["coqc 8.16.1 kernel (vm_compute used for case evaluation only)",
                     "hand-written Gallina model coq/theories/Pull/Model.v of dfir_pipes/src/pull/*.rs",
                     "correspondence harness harness/h_pull (scripted Pull source) + tools/pull.py"]
@@ -36,6 +36,8 @@ class C11(vlib.Spec):
             cases += pull.exhaustive_xcases()
         nx = n // 3
         cases += [pull.rand_xcase(rng, pull.XCOMBS[i % len(pull.XCOMBS)]) for i in range(nx)]
+        # pipelines: a source under 2-3 unary combinators, against the composed model
+        cases += [pull.rand_pipe(rng) for _ in range(n // 3 if tier == "quick" else n)]
         return cases
 
     def n_cases(self, tier):
@@ -44,15 +46,19 @@ class C11(vlib.Spec):
     def to_coq(self, case, res):
         if case.get("k") == "c11x":
             return pull.c11x_term(case, res)
+        if case.get("k") == "c11p":
+            return pull.c11p_term(case, res)
         return pull.c11_term(case, res)
 
     def shrink(self, case):
+        if case.get("k") == "c11p":
+            return pull.shrink_pipe(case)
         return pull.shrink_c11(case) if case.get("k") == "c11" else pull.shrink_x(case)
 
     def nontrivial(self, case, res):
         tr = res.get("trace", []) if isinstance(res, dict) else []
         has_ready = any(isinstance(x[2], list) for x in tr)
-        sched = any(x in ("P", "E") for i in case["ins"] for x in i["s"])
+        sched = any(x in ("P", "E") for i in case["ins"] for x in i["s"] if isinstance(x, str))
         return has_ready and sched
 
     def finding_key(self, case, res):
@@ -65,6 +71,14 @@ class C11(vlib.Spec):
         for c in cases:
             if c.get("k") == "c11x":
                 d["adaptors_and_futures"][c["comb"]] = d["adaptors_and_futures"].get(c["comb"], 0) + 1
+        d["pipelines"] = {"count": 0, "depth": {}, "stage": {}}
+        for c in cases:
+            if c.get("k") == "c11p":
+                d["pipelines"]["count"] += 1
+                k = str(len(c["stages"]))
+                d["pipelines"]["depth"][k] = d["pipelines"]["depth"].get(k, 0) + 1
+                for st in c["stages"]:
+                    d["pipelines"]["stage"][st["op"]] = d["pipelines"]["stage"].get(st["op"], 0) + 1
         return d
 
 
